@@ -53,8 +53,8 @@ def check_states(run, states):
 
 
 # ----------------------------------------------------------------------------- the setters of ada::url (Model/UrlSetters.lean)
-MODELLED_SETTERS = ("set_username", "set_password", "set_port", "set_hash", "set_search", "set_pathname")
-BOOL_SETTERS = ("set_username", "set_password", "set_port", "set_pathname")
+MODELLED_SETTERS = ("set_username", "set_password", "set_port", "set_hash", "set_search", "set_pathname", "set_protocol")
+BOOL_SETTERS = ("set_username", "set_password", "set_port", "set_pathname", "set_protocol")
 
 
 def fields_line(f):
